@@ -253,6 +253,11 @@ def queries_of(prop: str) -> list[str]:
     return [label for label, (kind, props, _) in OPS.items() if kind == 'query' and prop in props]
 
 
+# properties whose thorough tier also explores length 4: `first m1 m2 query` with at least one of m1, m2 an
+# in-place edit (touch, edit, touch again, ask / touch, transform, edit, ask); the ones with a single own query
+DEEP = ('C01', 'C17', 'C18')
+
+
 def cases_for(prop: str, tier: str) -> list[dict]:
     """One case per (dataset, first operation); the case explores every continuation."""
     own = queries_of(prop)
@@ -265,7 +270,8 @@ def cases_for(prop: str, tier: str) -> list[dict]:
         for first in OPS:
             if spec.get('explicit_names') and OPS[first][0] == 'transform' and first != 'pickle':
                 continue    # datasets derived from a hand-bound one are detected afresh: another dataset altogether
-            out.append({'part': 'sequence', 'spec': spec, 'first': first, 'depth': 'edits' if tier == 'quick' else 3})
+            out.append({'part': 'sequence', 'spec': spec, 'first': first,
+                        'depth': 'edits' if tier == 'quick' else (4 if prop in DEEP else 3)})
     return out
 
 
@@ -310,6 +316,9 @@ def run_case(prop: str, case: dict, rec) -> None:
     middles = [()] + [(m,) for m in OPS
                       if (case['depth'] != 'edits' or OPS[m][0] == 'mutate')
                       and not (spec.get('explicit_names') and OPS[m][0] == 'transform' and m != 'pickle')]
+    if case['depth'] == 4:
+        singles = [m for (m,) in middles[1:]]
+        middles = middles + [(a, b) for a in singles for b in singles if 'mutate' in (OPS[a][0], OPS[b][0])]
     for middle in middles:
         prefix = (case['first'],) + middle
         # apply the prefix to the one used object
